@@ -1562,7 +1562,7 @@ def show_keys(
                     null as "comment"
                 FROM duckdb_constraints
                 WHERE constraint_type = 'PRIMARY KEY'
-                  AND database_name = '{current_database}'
+                  AND {{database_filter}}
                   AND table_name NOT LIKE '_fs_%'
                 """
         else:
@@ -1579,19 +1579,19 @@ def show_keys(
                     null as "comment"
                 FROM duckdb_constraints
                 WHERE constraint_type = '{kind} KEY'
-                  AND database_name = '{current_database}'
+                  AND {{database_filter}}
                   AND table_name NOT LIKE '_fs_%'
                 """
 
+        # the database named in the scope, else the current one (without either: the whole account)
+        database = current_database
         scope_kind = expression.args.get("scope_kind")
         if scope_kind:
             table = expression.args["scope"]
 
             if scope_kind == "SCHEMA":
-                db = table and table.db
+                database = (table and table.db) or database
                 schema = table and table.name
-                if db:
-                    statement += f"AND database_name = '{db}' "
 
                 if schema:
                     statement += f"AND schema_name = '{schema}' "
@@ -1599,9 +1599,13 @@ def show_keys(
                 if not table:
                     raise ValueError(f"SHOW PRIMARY KEYS with {scope_kind} scope requires a table")
 
+                database = table.catalog or database
+                if table.db:
+                    statement += f"AND schema_name = '{table.db}' "
                 statement += f"AND table_name = '{table.name}' "
             else:
                 raise NotImplementedError(f"SHOW PRIMARY KEYS with {scope_kind} not yet supported")
+        statement = statement.replace("{database_filter}", f"database_name = '{database}'" if database else "TRUE")
         return sqlglot.parse_one(statement)
     return expression
 
